@@ -272,6 +272,70 @@ pub fn guarded<T, F: FnOnce() -> T>(f: F) -> Result<T, String> {
     catch_unwind(AssertUnwindSafe(f)).map_err(panic_text)
 }
 
+// ---------------------------------------------------------------------------
+// Hang watchdog: calls into the subject that may not terminate are bracketed by enter()/leave(); a watchdog thread
+// reports an input that keeps a worker busy for longer than the limit as a violation and ends the process through
+// the emergency exit installed by main (a stuck worker cannot be joined).
+
+pub struct WatchSlot {
+    /// milliseconds since process start when the current call began, 0 = idle
+    pub since: AtomicU64,
+    pub input: Mutex<Vec<u8>>,
+}
+
+static WATCH_SLOTS: Mutex<Vec<std::sync::Arc<WatchSlot>>> = Mutex::new(Vec::new());
+static PROCESS_START: std::sync::OnceLock<Instant> = std::sync::OnceLock::new();
+pub static EMERGENCY_EXIT: std::sync::OnceLock<Box<dyn Fn() + Send + Sync>> = std::sync::OnceLock::new();
+
+thread_local! {
+    static MY_SLOT: std::sync::Arc<WatchSlot> = {
+        let s = std::sync::Arc::new(WatchSlot { since: AtomicU64::new(0), input: Mutex::new(Vec::new()) });
+        WATCH_SLOTS.lock().unwrap().push(s.clone());
+        s
+    };
+}
+
+fn now_ms() -> u64 {
+    PROCESS_START.get_or_init(Instant::now).elapsed().as_millis() as u64 + 1
+}
+
+/// Call the subject on `input` under the watchdog; a panic becomes Err(message).
+pub fn guarded_watch<T, F: FnOnce() -> T>(input: &[u8], f: F) -> Result<T, String> {
+    MY_SLOT.with(|s| {
+        {
+            let mut i = s.input.lock().unwrap();
+            i.clear();
+            i.extend_from_slice(input);
+        }
+        s.since.store(now_ms(), Ordering::Release);
+    });
+    let r = catch_unwind(AssertUnwindSafe(f)).map_err(panic_text);
+    MY_SLOT.with(|s| s.since.store(0, Ordering::Release));
+    r
+}
+
+/// Start the watchdog: an input that keeps a worker busy for more than `limit_s` seconds is recorded as a
+/// violation of class `<class>` and the process is ended through EMERGENCY_EXIT.
+pub fn start_watchdog(rep: &'static Report, class: &'static str, limit_s: u64) {
+    std::thread::spawn(move || loop {
+        std::thread::sleep(std::time::Duration::from_millis(500));
+        let now = now_ms();
+        let slots: Vec<std::sync::Arc<WatchSlot>> = WATCH_SLOTS.lock().unwrap().clone();
+        for s in slots {
+            let since = s.since.load(Ordering::Acquire);
+            if since != 0 && now.saturating_sub(since) > limit_s * 1000 {
+                let input = s.input.lock().unwrap().clone();
+                rep.violation(class, format!("the call on input {} has not returned after {limit_s} s", hexs(&input)), json!({"frame": hexs(&input), "group": "hang"}));
+                rep.not_exhaustive("stopped by the hang watchdog");
+                if let Some(f) = EMERGENCY_EXIT.get() {
+                    f();
+                }
+                std::process::exit(3);
+            }
+        }
+    });
+}
+
 /// Reduce a panic message to a class key: drop numbers and addresses so that
 /// the same panic site on different inputs is one class.
 pub fn panic_class(msg: &str) -> String {
